@@ -39,11 +39,6 @@ Theorem c06_refuted_rejected_without_mid :
 Proof. exact wit_no_mid_refutes. Qed.
 Print Assumptions c06_refuted_rejected_without_mid.
 
-Theorem c06_refuted_numbering_order :
-  remote_ok wit_numbering /\ exists d, In d (generated wit_numbering) /\ ~ c06_holds d.
-Proof. exact wit_numbering_refutes. Qed.
-Print Assumptions c06_refuted_numbering_order.
-
 Theorem c06_refuted_counter_overflow :
   remote_ok wit_overflow /\ exists d, In d (generated wit_overflow) /\ ~ c06_holds d.
 Proof. exact wit_overflow_refutes. Qed.
@@ -56,7 +51,7 @@ Print Assumptions c06_refuted_counter_overflow.
    application section and an appended data section's mid Itoa(len) is not an
    existing mid) satisfies all of C06 *)
 Theorem c06_partial : forall ops,
-  remote_ok ops -> numbering_ok_all ops ->
+  remote_ok ops -> nowrap_all ops ->
   forall s o d s', In (s, o, ODesc (Ok d), s') (trace ops) -> gen_guard s o -> c06_holds d.
 Proof. exact c06_partial_lemma. Qed.
 Print Assumptions c06_partial.
@@ -76,7 +71,7 @@ Print Assumptions c06_before_remote_description.
 (* the invariant behind it: in every such history the transceivers' set mids
    stay pairwise distinct *)
 Theorem c06_transceiver_mids_distinct : forall ops,
-  remote_ok ops -> numbering_ok_all ops ->
+  remote_ok ops -> nowrap_all ops ->
   forall s o out s', In (s, o, out, s') (trace ops) ->
   NoDup (set_mids (trs s)) /\ NoDup (set_mids (trs s')).
 Proof. exact trace_mids_distinct. Qed.
@@ -101,7 +96,7 @@ Print Assumptions c06_itoa_injective.
 (* the premises of c06_partial are satisfiable on a history with three
    generated descriptions of 3, 4 and 5 sections *)
 Example c06_partial_nontrivial :
-  remote_ok ex_guarded /\ numbering_ok_all ex_guarded /\
+  remote_ok ex_guarded /\ nowrap_all ex_guarded /\
   (forall s o out s', In (s, o, out, s') (trace ex_guarded) -> gen_guard s o) /\
   map (fun d => List.length (l_secs d)) (generated ex_guarded) = [3; 4; 5]%nat.
 Proof. exact ex_guarded_ok. Qed.
